@@ -27,16 +27,20 @@
     closed spec fn view(&self) -> St { window(self.storage.view(), self.prefix@) }
 //@ fn src/prefixed_storage/mod.rs :: Storage for PrefixedStorage :: get
 //@   ret r
+//@   ensures [C07.ps.get_window] match r { Some(v) => self.view().contains_key(key@) && self.view()[key@] == v@, None => !self.view().contains_key(key@) }
 //@ end
 //@ fn src/prefixed_storage/mod.rs :: Storage for PrefixedStorage :: range
 //@   ret r
+//@   ensures [C07.ps.range_window] is_range_of(recs_view(r.remaining()), self.view(), opt_view(start), opt_view(end), order)
 //@   replace "Box<dyn Iterator<Item = Record> + 'b>" => "RecordIter<'b>"
 //@ end
 //@ fn src/prefixed_storage/mod.rs :: Storage for PrefixedStorage :: set
+//@   ensures [C07.ps.set_window] final(self).view() == old(self).view().insert(key@, value@)
 //@   ensures [C07.ps.set_frame] final(self).base_view() == old(self).base_view().insert(old(self).prefix_view() + key@, value@) && final(self).prefix_view() == old(self).prefix_view()
 //@   after? "set_with_prefix(" proof { lemma_window_insert(old(self).storage.view(), self.prefix@, key@, value@); }
 //@ end
 //@ fn src/prefixed_storage/mod.rs :: Storage for PrefixedStorage :: remove
+//@   ensures [C07.ps.remove_window] final(self).view() == old(self).view().remove(key@)
 //@   ensures [C07.ps.remove_frame] final(self).base_view() == old(self).base_view().remove(old(self).prefix_view() + key@) && final(self).prefix_view() == old(self).prefix_view()
 //@   after? "remove_with_prefix(" proof { lemma_window_remove(old(self).storage.view(), self.prefix@, key@); }
 //@ end
@@ -63,9 +67,11 @@
     closed spec fn view(&self) -> St { window(self.storage.view(), self.prefix@) }
 //@ fn src/prefixed_storage/mod.rs :: Storage for ReadonlyPrefixedStorage :: get
 //@   ret r
+//@   ensures [C07.ro.get_window] match r { Some(v) => self.view().contains_key(key@) && self.view()[key@] == v@, None => !self.view().contains_key(key@) }
 //@ end
 //@ fn src/prefixed_storage/mod.rs :: Storage for ReadonlyPrefixedStorage :: range
 //@   ret r
+//@   ensures [C07.ro.range_window] is_range_of(recs_view(r.remaining()), self.view(), opt_view(start), opt_view(end), order)
 //@   replace "Box<dyn Iterator<Item = Record> + 'b>" => "RecordIter<'b>"
 //@ end
 // read-only views reject writes: the bodies must diverge (checked syntactically: sole statement is a diverging macro);
